@@ -22,7 +22,7 @@ Print Assumptions backoff_table.
 (* at most one announce per tracker in flight; a newer event replaces, never duplicates *)
 Theorem one_in_flight : forall t0 groups ops r, In r (log (run (init t0 groups) ops)) ->
   t_en (r_pre r) = true /\ r_repl r = t_busy (r_pre r) /\
-  (t_busy (r_pre r) = true -> r_ev r <> EvNone /\ r_ev r <> t_ev (r_pre r)).
+  (t_busy (r_pre r) = true -> r_ev r <> t_ev (r_pre r) /\ (t_ev (r_pre r) <> EvScrape -> r_ev r <> EvNone)).
 Proof. exact Proofs.one_in_flight. Qed.
 Print Assumptions one_in_flight.
 
@@ -36,7 +36,7 @@ Print Assumptions started_carried.
    obligation (client stop/completed, or an active controller receiving the success of a request
    that carried STARTED), every request handed to a worker carries STARTED *)
 Theorem started_carried_trace : forall t0 groups ops1 o ops2,
-  o = OSendStart \/ o = OStart false ->
+  o = OSendStart \/ o = OStart false \/ o = OStartK false ->
   let s0 := run (init t0 groups) ops1 in
   pending_run EvStarted (step s0 o) ops2 ->
   exists new, log (run (step s0 o) ops2) = new ++ log s0 /\ Forall (fun r => r_ev r = EvStarted) new.
@@ -90,7 +90,8 @@ Proof. exact Proofs.interval_clamps. Qed.
 Print Assumptions interval_clamps.
 
 (* tier order, what holds: a timer-driven request in normal mode goes to a tracker of a later
-   group only if every enabled never-failed tracker u of an earlier group is in flight (finding
+   group only if every enabled never-failed tracker u of an earlier group has an ANNOUNCE in flight
+   (busy_ann: busy and not with a scrape -- a scrape in flight is replaced, not waited for) (finding
    tier-skipped-while-in-flight) or was passed over because the first requestable tracker has
    failed and the chosen tracker's next-activity time is not later than u's (finding
    tier-skipped-not-due) *)
@@ -98,7 +99,7 @@ Theorem tier_order : forall t0 groups ops r, In r (log (run (init t0 groups) ops
   r_src r = SrcTimer ->
   f_promisc (r_fl r) = true \/ f_requesting (r_fl r) = true \/
   (forall u, In u (r_trs r) -> (t_group u < t_group (r_pre r))%nat -> t_en u = true -> t_fc u = 0 ->
-     t_busy u = true \/
+     busy_ann u = true \/
      (activity_time_next (r_pre r) <= activity_time_next u /\
       exists p, In p (r_trs r) /\ can_request_state p = true /\ t_fc p <> 0)).
 Proof. exact Proofs.tier_order. Qed.
@@ -112,13 +113,22 @@ Theorem tier_order_strict_refuted :
 Proof. exact Proofs.tier_order_strict_refuted. Qed.
 Print Assumptions tier_order_strict_refuted.
 
-(* the figures of every request are those of the download info at the step that sent it *)
+(* the figures of every request are those of the download info at the moment it is sent: the
+   (adjusted) figures of the state, which Download::start (OStart) has reset to 0 / 0 beforehand *)
 Theorem params_match : forall t0 groups ops o,
   let s := run (init t0 groups) ops in
   exists new, log (step s o) = new ++ log s /\
-    Forall (fun r => r_up r = Z.max (s_up s) 0 /\ r_comp r = Z.max (s_comp s) 0 /\ r_left r = s_left s) new.
+    Forall (fun r => let '(up, comp, lft) := figs_for s o in
+                     r_up r = Z.max up 0 /\ r_comp r = Z.max comp 0 /\ r_left r = lft) new.
 Proof. exact Proofs.params_match. Qed.
 Print Assumptions params_match.
+
+Theorem restart_reports_zero : forall t0 groups ops skip,
+  let s := run (init t0 groups) ops in
+  exists new, log (step s (OStart skip)) = new ++ log s /\
+    Forall (fun r => r_up r = 0 /\ r_comp r = 0 /\ r_left r = s_left s) new.
+Proof. exact Proofs.restart_reports_zero. Qed.
+Print Assumptions restart_reports_zero.
 
 (* tracker identities are unique in every reachable state: the model's lookups by id address exactly
    the tracker the code's handle points to *)
